@@ -99,6 +99,11 @@ def request : P String := do
       | "normal" => do let j ← tok; let r ← nat; let c ← nat; pure (showExpr (normalDef dim j r c))
       | "BJac" => pure (showExpr (bjacDef dim))
       | _ => failure
+  | "rphys" => do
+      let dim ← nat; let physIn ← list tok; let e ← pExpr
+      match (postorder e).findSome? (replacePhysRaises dim physIn) with
+      | some err => pure err
+      | none => pure (showExpr (replacePhysAll dim physIn e))
   | "vec" => do let bfs ← list pBFun; let e ← pExpr; pure (showExpr (substVec bfs e))
   | "keys" => do
       let t ← pKeyTable; let roots ← list pExpr
